@@ -5,7 +5,15 @@
 //!   dyn=0: `TimeLimiterLayer::builder().timeout_duration(timeout)` (a `timeout=` word on an
 //!          `arrive` line is carried by the request but must be ignored by the layer)
 //!   dyn=1: `.timeout_fn(|req| …)`: the request's own `timeout=<ms>` (default: the header value)
+//!   chain=<s1,s2,…> (optional; replaces timeout/cancel/dyn): the builder chain itself, applied left to
+//!          right to `TimeLimiterLayer::builder()` — `d<ms>` = `.timeout_duration(ms)`, `f<ms>` =
+//!          `.timeout_fn(|req| …)` (the request's own `timeout=`, else `<ms>`), `c0`/`c1` =
+//!          `.cancel_running_future(false/true)`; anything else is skipped. `timeout_duration` and
+//!          `timeout_fn` change the builder's type and rebuild it field by field, so the order of the
+//!          setters is a dimension of its own (e.g. `c0,f20` vs `f20,c0`); an empty chain (`chain=-`)
+//!          is the default builder (fixed 5 s, cancelling).
 //! ops:    `arrive <c> [timeout=<ms>] inner=<lat>:<out>`, `poll`, `drop`, `adv`, `settle`, `dropall`
+//!         (timeouts are u64 milliseconds: 0 and values up to u64::MAX are meaningful)
 //!
 //! No observed choices: since the repair "time limiter without cancellation prefers a finished
 //! inner call over the timeout" the non-cancel `select!` is biased (oneshot first), so the layer
@@ -15,13 +23,51 @@ use std::collections::HashMap;
 use std::sync::{Arc, Mutex};
 use std::time::Duration;
 use tower::{Layer, Service};
-use tower_resilience_timelimiter::{DynamicTimeout, FixedTimeout, TimeLimiter, TimeLimiterError, TimeLimiterLayer};
+use tower_resilience_timelimiter::{
+    DynamicTimeout, FixedTimeout, TimeLimiter, TimeLimiterConfigBuilder, TimeLimiterError, TimeLimiterLayer,
+};
 
 type DynFn = Box<dyn Fn(&Req) -> Duration + Send + Sync>;
 
 enum Svc {
     Fixed(TimeLimiter<Inner, FixedTimeout>),
     Dyn(TimeLimiter<Inner, DynamicTimeout<DynFn>>),
+}
+
+/// the builder between two setter calls: its type depends on the last timeout setter
+enum Builder {
+    Fixed(TimeLimiterConfigBuilder<FixedTimeout>),
+    Dyn(TimeLimiterConfigBuilder<DynamicTimeout<DynFn>>),
+}
+
+fn extractor(table: &Arc<Mutex<HashMap<usize, u64>>>, dflt: u64) -> DynFn {
+    let table = table.clone();
+    Box::new(move |req: &Req| {
+        let ms = table.lock().unwrap().get(&req.c).cloned().unwrap_or(dflt);
+        Duration::from_millis(ms)
+    })
+}
+
+/// apply the setters of `chain` in order through the public builder API
+fn build_chain(chain: &str, table: &Arc<Mutex<HashMap<usize, u64>>>) -> Svc {
+    let mut b = Builder::Fixed(TimeLimiterLayer::builder());
+    for item in chain.split(',') {
+        let (head, arg) = if item.is_char_boundary(item.len().min(1)) { item.split_at(item.len().min(1)) } else { ("", "") };
+        let num = if arg.bytes().all(|x| x.is_ascii_digit()) { arg.parse::<u64>().ok() } else { None };
+        b = match (head, num, b) {
+            ("d", Some(ms), Builder::Fixed(x)) => Builder::Fixed(x.timeout_duration(Duration::from_millis(ms))),
+            ("d", Some(ms), Builder::Dyn(x)) => Builder::Fixed(x.timeout_duration(Duration::from_millis(ms))),
+            ("f", Some(ms), Builder::Fixed(x)) => Builder::Dyn(x.timeout_fn(extractor(table, ms))),
+            ("f", Some(ms), Builder::Dyn(x)) => Builder::Dyn(x.timeout_fn(extractor(table, ms))),
+            ("c", Some(v), Builder::Fixed(x)) if v <= 1 => Builder::Fixed(x.cancel_running_future(v == 1)),
+            ("c", Some(v), Builder::Dyn(x)) if v <= 1 => Builder::Dyn(x.cancel_running_future(v == 1)),
+            (_, _, b) => b,
+        };
+    }
+    match b {
+        Builder::Fixed(x) => Svc::Fixed(x.build().layer(Inner::new())),
+        Builder::Dyn(x) => Svc::Dyn(x.build().layer(Inner::new())),
+    }
 }
 
 pub struct Adapter {
@@ -37,12 +83,10 @@ impl Adapter {
         let cancel = kv.u64("cancel", 1) != 0;
         let dynamic = kv.u64("dyn", 0) != 0;
         let per_req: Arc<Mutex<HashMap<usize, u64>>> = Arc::new(Mutex::new(HashMap::new()));
-        let svc = if dynamic {
-            let table = per_req.clone();
-            let f: DynFn = Box::new(move |req: &Req| {
-                let ms = table.lock().unwrap().get(&req.c).cloned().unwrap_or(timeout);
-                Duration::from_millis(ms)
-            });
+        let svc = if let Some(chain) = kv.get("chain") {
+            build_chain(chain, &per_req)
+        } else if dynamic {
+            let f = extractor(&per_req, timeout);
             let layer = TimeLimiterLayer::builder().timeout_fn(f).cancel_running_future(cancel).build();
             Svc::Dyn(layer.layer(Inner::new()))
         } else {
